@@ -167,7 +167,7 @@ func c34Variant(m *memRig, d c34Defect) {
 		m.seq++
 		tx, _ := c.MakeDeposit(cluster.AssetBTC, common.NewIntegerFromString("0.75"), fmt.Sprintf("stale-auth-%d", m.seq), 0, []int{0}, 1)
 		c.Domain = keep
-		acc := m.accepted()
+		acc := m.leaders()
 		refused(m, "C34", d.name, m.placeOn(acc[m.rng.IntN(len(acc))].id, tx, false), d.what)
 		return
 	}
